@@ -73,7 +73,7 @@ warnings.filterwarnings("ignore", category=DeprecationWarning)
 # which repairs the tree under test contains (same detection as the translator's Gen/C03_tables.v [tree_fixes]); the python
 # mirrors below (expected tree, gap classifier used by search) follow them. REQUIRED_FIXES: repairs that have landed in
 # /repo -- if one of them is no longer detected the translator tie breaks and its finding is not excused.
-REQUIRED_FIXES: list = []
+REQUIRED_FIXES: list = list(c03_tables.FIXES)      # all ten landed in /repo (cff9424 .. c5f6889)
 FX = {f: False for f in c03_tables.FIXES}
 
 
@@ -108,7 +108,7 @@ def ensure_fixes():
 def translate(ctx):
     _FIXES_LOADED[0] = True
     try:
-        c03_tables.translate(ctx)
+        c03_tables.translate(ctx, required=REQUIRED_FIXES)
     finally:
         load_fixes()
 
@@ -493,8 +493,6 @@ def observe_impl(expr):
         return [[expr, "str", [[0, expr]], [[0, expr]], expr, expr]]
 
     def canon(p):
-        if isinstance(p, ExprKeyword) and isinstance(p.function, str):
-            return "n/a"       # ExprKeyword.canonical_path raises when the called thing is a constant (finding F15): not compared
         try:
             return p.canonical_path
         except Exception as e:  # noqa: BLE001
@@ -905,10 +903,12 @@ def parent_slots():
 # ---------------------------------------------------------------- running cases
 # families 2 (dict unpacking), 5 (dict comprehension spacing), 11 (in_subscript leak), 12 (non-finite literals) and the
 # decorator crash F13 were repaired in /repo: they have no classifier any more, so a recurrence is a violation
-FAMILY = {1: "C03-F1", 3: "C03-F3", 4: "C03-F4", 6: "C03-F6", 7: "C03-F7", 8: "C03-F8", 9: "C03-F9", 10: "C03-F10", 11: "C03-F14"}
+# the families whose repair landed (1 grouping, 3 f-strings, 4 lambda, 6 generator, 7 empty tuple, 9 int attribute, 11 literal
+# root) have no classifier any more: if the model ever names one (a repair lost), the failure is a violation
+FAMILY = {8: "C03-F8", 10: "C03-F10"}
 FAMILY_NAME = {1: "group", 3: "fstring", 4: "lambda_params", 6: "genexp", 7: "empty_slice_tuple", 8: "yield", 9: "int_attr", 10: "await",
                11: "literal_root"}
-PRIORITY = [10, 11, 4, 3, 7, 9, 6, 8, 1]
+PRIORITY = [10, 8]
 BATCH = 40
 
 
@@ -1278,30 +1278,20 @@ def check_case(ctx, c, obj, out, stream):
         return
     only_names = set(detail) <= {"names", "dotted_paths"}
     fam = pick_family(gaps)
-    if only_names:   # a lost or spurious name is explained only by the families that drop / invent sub-expressions
-        fam = 10 if 10 in gaps else 3 if 3 in gaps else None
-    ctx.observe("outcome", "known:" + FAMILY_NAME[fam] if fam else "UNEXPLAINED")
+    if only_names:   # a lost or spurious name is explained only by the family that drops sub-expressions
+        fam = 10 if 10 in gaps else None
+    ctx.observe("outcome", "known:" + FAMILY_NAME[fam] if fam else "UNEXPLAINED" + ("" if not gaps else ":model-names-repaired-family"))
     if not fam:
         cj["_visited_upto"] = len(STATE["visited"])
     ctx.property_failure(cj, detail, finding=FAMILY[fam] if fam else None)
 
 
-# (finding, repair that removes it or None, family, position, future, expression)
+# (finding, repair that removes it or None, family, position, future, expression); the witnesses of the repaired findings are
+# must-pass corpus cases now (corpus/C03/fixed-*.json)
 WITNESSES = [
-    ("C03-F1", "prec", 1, "assign", False, "(a + b) * c"),
-    ("C03-F3", "fconv", 3, "assign", False, "f'{a!r:>{w}}'"),
-    ("C03-F3", "fesc", 3, "assign", False, "f'{a}{{'"),
-    ("C03-F3", "fglue", 3, "assign", False, "f'{ {1: 2}[1]}'"),
-    ("C03-F3", "fnest", 3, "assign", False, "f'{f\"x{a}\"}'"),
-    ("C03-F4", "lambda", 4, "assign", False, "lambda *a, k: 0"),
-    ("C03-F4", "lambda", 4, "assign", False, "lambda p, /: 0"),
-    ("C03-F6", "genexp", 6, "assign", False, "(x for x in y)"),
-    ("C03-F7", "tuple0", 7, "assign", False, "a[()]"),
-    ("C03-F8", "prec", 8, "assign", False, "[(yield)]"),
     ("C03-F8", None, 8, "param_default", False, "(yield)"),
-    ("C03-F9", "intattr", 9, "assign", False, "(1).real"),
     ("C03-F10", None, 10, "assign", False, "f(await x)"),
-    ("C03-F14", "litroot", 11, "annassign", False, "f().typing.Literal['int']"),
+    ("C03-F10", None, 10, "assign", False, "lambda p=(await x): p"),
 ]
 
 
@@ -1329,17 +1319,6 @@ def replay_witnesses(ctx):
                 ctx.property_failure(case_json(c), {"witness of a repaired defect fails again": fid})
     for fid, r in reproduced.items():
         ctx.witness(fid, r)
-    # F15 (not on the rendering path): ExprKeyword.canonical_path of a keyword passed to a called constant
-    try:
-        call = visit_module("v0 = 's'(k=1)\n").members["v0"].value
-        kw = [p for p in call if not isinstance(p, str)][-1]
-        try:
-            kw.canonical_path
-            ctx.witness("C03-F15", False)
-        except AttributeError:
-            ctx.witness("C03-F15", True)
-    except Exception:  # noqa: BLE001
-        ctx.witness("C03-F15", False)
 
 
 def corpus_cases():
@@ -1799,7 +1778,7 @@ def search_streams(ctx):
             gaps = py_gaps_top(c["Eexp"], c["top"], c["E"])
             fam = pick_family(gaps)
             if set(detail) <= {"names", "dotted_paths"}:
-                fam = 10 if 10 in gaps else 3 if 3 in gaps else None
+                fam = 10 if 10 in gaps else None
             if fam is None:
                 ctx.property_failure(cj, detail)
                 return
